@@ -1046,3 +1046,316 @@ Proof.
   destruct (p_vals p) as [|v vals]; [f_equal; apply map_const_length; exact Hlen|].
   rewrite preparations_set_pnodes. f_equal. apply map_const_length; exact Hlen.
 Qed.
+
+(* ------------------------------------------------------------------------------------------- *)
+(* Failures of a validator are isolated: two histories that differ only in what concerns the
+   validator with public key p' (its settings, whether they resolve, the outcomes of its signing
+   requests, even its account and index) send exactly the same registrations for every other
+   validator, in every round, and forward the same registrations. *)
+
+Section Isolation.
+  Variable p' : N.
+
+  Definition other_sr (sr : sreg) : bool := negb (ct_pub (sr_content sr) =? p').
+  Definition other_q (q : sigreq) : bool := negb (ct_pub (q_content q) =? p').
+
+  (* cache entries are filed under their own content *)
+  Definition K (st : state) : Prop :=
+    forall c sr, get_signed (signed st) c = Some sr -> sr_content sr = c.
+
+  Definition SR (st st' : state) : Prop :=
+    K st /\ K st'
+    /\ (forall c, ct_pub c <> p' -> get_signed (signed st) c = get_signed (signed st') c)
+    /\ (forall p, p <> p' -> get_latest (latest st) p = get_latest (latest st') p).
+
+  Lemma SR_sym : forall st st', SR st st' -> SR st' st.
+  Proof.
+    intros st st' [H1 [H2 [H3 H4]]]. repeat split; auto.
+    - intros c Hc; symmetry; auto.
+    - intros p Hp; symmetry; auto.
+  Qed.
+
+  Lemma cached_K : forall st c sr, K st -> cached st c = Some sr -> sr_content sr = c.
+  Proof.
+    unfold cached; intros st c sr HK H.
+    destruct (get_signed (signed st) c) as [sr0|] eqn:E; [|discriminate].
+    destruct (get_latest (latest st) (ct_pub c)) as [c0|]; [|discriminate].
+    destruct (content_eqb c0 c); [|discriminate]. injection H as <-. eauto.
+  Qed.
+
+  Lemma gen_relay_K : forall st now a c signs st1 signs1 orq osr,
+    K st -> gen_relay st now a c signs = (st1, signs1, orq, osr) ->
+    K st1 /\ (forall sr, osr = Some sr -> sr_content sr = c).
+  Proof.
+    intros st now a c signs st1 signs1 orq osr HK H. unfold gen_relay in H.
+    destruct (cached st c) as [sr0|] eqn:Ec.
+    - injection H as <- <- <- <-. split; [exact HK|]. intros sr Hs; injection Hs as <-. eapply cached_K; eauto.
+    - destruct (hd true signs); injection H as <- <- <- <-.
+      + split; [|intros sr Hs; injection Hs as <-; reflexivity].
+        intros c2 sr2. cbn [signed]. unfold set_signed. cbn [get_signed].
+        destruct (content_eqb c c2) eqn:E; [|apply HK].
+        intro Hs; injection Hs as <-. apply content_eqb_spec in E. exact E.
+      + split; [exact HK|discriminate].
+  Qed.
+
+  (* the same step on both sides, for another validator *)
+  Lemma gen_relay_both : forall st st' now a c signs,
+    ct_pub c <> p' -> SR st st' ->
+    exists st1 st1' signs1 orq osr,
+      gen_relay st now a c signs = (st1, signs1, orq, osr)
+      /\ gen_relay st' now a c signs = (st1', signs1, orq, osr)
+      /\ SR st1 st1'.
+  Proof.
+    intros st st' now a c signs Hc [HK [HK' [Hs Hl]]].
+    assert (Hcached : cached st c = cached st' c) by (unfold cached; rewrite (Hs c Hc), (Hl _ Hc); reflexivity).
+    unfold gen_relay. rewrite <- Hcached. destruct (cached st c) as [sr0|].
+    - do 5 eexists. split; [reflexivity|]. split; [reflexivity|]. repeat split; auto.
+    - destruct (hd true signs).
+      + do 5 eexists. split; [reflexivity|]. split; [reflexivity|].
+        split; [|split; [|split]].
+        * intros c2 sr2. cbn [signed]. unfold set_signed. cbn [get_signed].
+          destruct (content_eqb c c2) eqn:E; [|apply HK].
+          intro H; injection H as <-. apply content_eqb_spec in E. exact E.
+        * intros c2 sr2. cbn [signed]. unfold set_signed. cbn [get_signed].
+          destruct (content_eqb c c2) eqn:E; [|apply HK'].
+          intro H; injection H as <-. apply content_eqb_spec in E. exact E.
+        * intros c2 Hc2. cbn [signed]. unfold set_signed. cbn [get_signed]. rewrite (Hs c2 Hc2). reflexivity.
+        * intros p Hp. cbn [latest]. unfold set_latest. cbn [get_latest]. rewrite (Hl p Hp). reflexivity.
+      + do 5 eexists. split; [reflexivity|]. split; [reflexivity|]. repeat split; auto.
+  Qed.
+
+  (* a step for p' itself, on one side only *)
+  Lemma gen_relay_one : forall st st' now a c signs st1 signs1 orq osr,
+    ct_pub c = p' -> SR st st' ->
+    gen_relay st now a c signs = (st1, signs1, orq, osr) ->
+    SR st1 st'
+    /\ (forall rq, orq = Some rq -> other_q rq = false)
+    /\ (forall sr, osr = Some sr -> other_sr sr = false).
+  Proof.
+    intros st st' now a c signs st1 signs1 orq osr Hc HSR H.
+    destruct HSR as [HK [HK' [Hs Hl]]].
+    destruct (gen_relay_K _ _ _ _ _ _ _ _ _ HK H) as [HK1 Hcont].
+    destruct (gen_relay_shape _ _ _ _ _ _ _ _ _ H) as [Hrq _].
+    split; [|split].
+    - unfold gen_relay in H. destruct (cached st c).
+      + injection H as <- <- <- <-. repeat split; auto.
+      + destruct (hd true signs); injection H as <- <- <- <-; [|repeat split; auto].
+        split; [exact HK1|]. split; [exact HK'|]. split.
+        * intros c2 Hc2. cbn [signed]. unfold set_signed. cbn [get_signed].
+          rewrite content_eqb_pub; [apply Hs; exact Hc2|]. rewrite Hc. auto.
+        * intros p Hp. cbn [latest]. unfold set_latest. cbn [get_latest].
+          rewrite Hc. destruct (N.eqb p' p) eqn:E; [apply N.eqb_eq in E; congruence|]. apply Hl; exact Hp.
+    - intros rq Hq. destruct (Hrq rq Hq) as [_ [Hqc _]]. unfold other_q. rewrite Hqc, Hc, N.eqb_refl. reflexivity.
+    - intros sr Hsr. unfold other_sr. rewrite (Hcont sr Hsr), Hc, N.eqb_refl. reflexivity.
+  Qed.
+
+  (* accumulators agree on what concerns the other validators *)
+  Definition AR (ac ac' : acc) : Prop :=
+    SR (a_st ac) (a_st ac')
+    /\ filter other_q (a_reqs ac) = filter other_q (a_reqs ac')
+    /\ (forall a sr, other_sr sr = true -> (mem_rm (a_relays ac) a sr <-> mem_rm (a_relays ac') a sr))
+    /\ filter other_sr (a_cons ac) = filter other_sr (a_cons ac').
+
+  Lemma AR_sym : forall ac ac', AR ac ac' -> AR ac' ac.
+  Proof.
+    intros ac ac' [H1 [H2 [H3 H4]]]. split; [apply SR_sym; exact H1|]. split; [auto|]. split; [|auto].
+    intros a sr Ho. symmetry. auto.
+  Qed.
+
+  Lemma filter_app_one {A} (f : A -> bool) (l : list A) (x : A) :
+    filter f (l ++ [x]) = if f x then filter f l ++ [x] else filter f l.
+  Proof. rewrite filter_app. cbn. destruct (f x); [reflexivity|apply app_nil_r]. Qed.
+
+  Lemma AR_gen_relays_both : forall rcs ac ac' now a pub first signs,
+    pub <> p' -> AR ac ac' ->
+    AR (gen_relays ac now a pub rcs first signs) (gen_relays ac' now a pub rcs first signs).
+  Proof.
+    induction rcs as [|rc rcs IH]; intros ac ac' now a pub first signs Hp HA; cbn [gen_relays]; [exact HA|].
+    destruct HA as [HS [Hq [Hr Hc]]].
+    destruct (gen_relay_both (a_st ac) (a_st ac') now a (content_of pub rc) signs Hp HS)
+      as [st1 [st1' [signs1 [orq [osr [E [E' HS1]]]]]]].
+    rewrite E, E'. apply IH; [exact Hp|].
+    destruct (gen_relay_K _ _ _ _ _ _ _ _ _ (proj1 HS) E) as [_ Hcont].
+    assert (Hq1 : filter other_q (match orq with Some rq => a_reqs ac ++ [rq] | None => a_reqs ac end)
+                  = filter other_q (match orq with Some rq => a_reqs ac' ++ [rq] | None => a_reqs ac' end)).
+    { destruct orq; [rewrite !filter_app_one, Hq; reflexivity|exact Hq]. }
+    destruct osr as [sr|]; (split; [exact HS1|]); (split; [exact Hq1|]); cbn [a_relays a_cons]; [|split; assumption].
+    split.
+    - intros a' x Ho. rewrite !mem_add_reg, (Hr a' x Ho). reflexivity.
+    - destruct first; [rewrite !filter_app_one, Hc; reflexivity|exact Hc].
+  Qed.
+
+  Lemma AR_gen_relays_one : forall rcs ac ac' now a first signs,
+    AR ac ac' -> AR (gen_relays ac now a p' rcs first signs) ac'.
+  Proof.
+    induction rcs as [|rc rcs IH]; intros ac ac' now a first signs HA; cbn [gen_relays]; [exact HA|].
+    destruct HA as [HS [Hq [Hr Hc]]].
+    destruct (gen_relay (a_st ac) now a (content_of p' rc) signs) as [[[st1 signs1] orq] osr] eqn:E.
+    destruct (gen_relay_one (a_st ac) (a_st ac') now a (content_of p' rc) signs st1 signs1 orq osr eq_refl HS E)
+      as [HS1 [Hoq Hosr]].
+    apply IH.
+    assert (Hq1 : filter other_q (match orq with Some rq => a_reqs ac ++ [rq] | None => a_reqs ac end)
+                  = filter other_q (a_reqs ac')).
+    { destruct orq as [rq|]; [rewrite filter_app_one, (Hoq rq eq_refl); exact Hq|exact Hq]. }
+    destruct osr as [sr|]; (split; [exact HS1|]); (split; [exact Hq1|]); cbn [a_relays a_cons]; [|split; assumption].
+    split.
+    - intros a' x Ho. rewrite mem_add_reg, (Hr a' x Ho). split; [|auto].
+      intros [H|[_ ->]]; [exact H|]. rewrite (Hosr sr eq_refl) in Ho. discriminate.
+    - destruct first; [rewrite filter_app_one, (Hosr sr eq_refl); exact Hc|exact Hc].
+  Qed.
+
+  (* validators of the two histories: same public key; identical unless the key is p' *)
+  Definition rel_val (v v' : validator) : Prop := v_pub v = v_pub v' /\ (v_pub v <> p' -> v = v').
+
+  Lemma AR_gen_account : forall ac ac' now v v',
+    rel_val v v' -> AR ac ac' -> AR (gen_account ac now v) (gen_account ac' now v').
+  Proof.
+    intros ac ac' now v v' [Hpub Hsame] HA.
+    destruct (N.eq_dec (v_pub v) p') as [Hp|Hp].
+    - assert (Hp'' : v_pub v' = p') by congruence.
+      unfold gen_account.
+      assert (H1 : AR (match v_res v with
+                       | Some res => gen_relays ac now (v_acct v) (v_pub v) (rs_relays res) true (v_sign v)
+                       | None => ac end) ac').
+      { destruct (v_res v); [rewrite Hp; apply AR_gen_relays_one; exact HA|exact HA]. }
+      destruct (v_res v'); [|exact H1].
+      rewrite Hp''. apply AR_sym. apply AR_gen_relays_one. apply AR_sym. exact H1.
+    - rewrite <- (Hsame Hp). unfold gen_account. destruct (v_res v); [|exact HA].
+      apply AR_gen_relays_both; assumption.
+  Qed.
+
+  Lemma AR_fold : forall l l' ac ac' now,
+    Forall2 rel_val l l' -> AR ac ac' ->
+    AR (fold_left (fun ac v => gen_account ac now v) l ac) (fold_left (fun ac v => gen_account ac now v) l' ac').
+  Proof.
+    induction l as [|v l IH]; intros l' ac ac' now HF HA; inversion HF; subst; cbn [fold_left]; [exact HA|].
+    apply IH; [assumption|]. apply AR_gen_account; assumption.
+  Qed.
+
+  (* operations of the two histories *)
+  Definition rel_op (o o' : op) : Prop :=
+    match o, o' with
+    | ORound r, ORound r' =>
+        r_now r = r_now r' /\ r_cfg r = r_cfg r' /\ r_api r = r_api r' /\ r_acct_err r = r_acct_err r'
+        /\ Forall2 rel_val (r_vals r) (r_vals r') /\ r_relays r = r_relays r' /\ r_nodes r = r_nodes r'
+    | OForward f, OForward f' => f = f'
+    | OPrepare _, OPrepare _ => True
+    | _, _ => False
+    end.
+
+  (* outputs agree on what concerns the other validators *)
+  Definition rel_out (x x' : out) : Prop :=
+    match x, x' with
+    | OutRound err reqs relays nodes, OutRound err' reqs' relays' nodes' =>
+        err = err'
+        /\ filter other_q reqs = filter other_q reqs'
+        /\ (forall a sr, other_sr sr = true -> (mem_rm relays a sr <-> mem_rm relays' a sr))
+        /\ (forall sr, other_sr sr = true ->
+              ((exists l, In (Some l) nodes /\ In sr l) <-> (exists l, In (Some l) nodes' /\ In sr l)))
+    | OutForward relays, OutForward relays' => relays = relays'
+    | OutPrepare _ _, OutPrepare _ _ => True
+    | _, _ => False
+    end.
+
+  Definition SRC (st st' : state) : Prop := SR st st' /\ controlled st = controlled st'.
+
+  Lemma Forall2_rel_val_pubs : forall l l', Forall2 rel_val l l' -> map v_pub l = map v_pub l'.
+  Proof. induction 1 as [|v v' l l' [H _] _ IH]; cbn; [reflexivity|]. rewrite H, IH. reflexivity. Qed.
+
+  Lemma In_node_sends_iff {A} : forall (nodes : list A) (cons : list sreg) sr,
+    nodes <> [] ->
+    ((exists l, In (Some l) (node_sends nodes cons) /\ In sr l) <-> In sr cons).
+  Proof.
+    intros nodes cons sr Hne. split.
+    - intros [l [H1 H2]]. apply In_node_sends in H1. subst; exact H2.
+    - intro H. exists cons. split; [|exact H]. destruct nodes as [|n nodes]; [contradiction|].
+      unfold node_sends. cbn. left. destruct cons; [destruct H|reflexivity].
+  Qed.
+
+  Lemma filter_In_iff : forall (l l' : list sreg),
+    filter other_sr l = filter other_sr l' ->
+    forall sr, other_sr sr = true -> (In sr l <-> In sr l').
+  Proof.
+    intros l l' H sr Ho. split; intro Hin.
+    - assert (Hf : In sr (filter other_sr l)) by (apply filter_In; auto). rewrite H in Hf. apply filter_In in Hf; tauto.
+    - assert (Hf : In sr (filter other_sr l')) by (apply filter_In; auto). rewrite <- H in Hf. apply filter_In in Hf; tauto.
+  Qed.
+
+  Lemma step_related : forall st st' o o',
+    SRC st st' -> rel_op o o' ->
+    SRC (fst (step st o)) (fst (step st' o')) /\ rel_out (snd (step st o)) (snd (step st' o')).
+  Proof.
+    intros st st' o o' [HS Hctrl] Hop.
+    destruct o as [r|f|p]; destruct o' as [r'|f'|p2]; cbn [rel_op] in Hop; try contradiction; cbn [step].
+    - destruct Hop as [Hnow [Hcfg [Hapi [Hae [Hvals [Hrel Hnodes]]]]]].
+      assert (Hact : active r' = active r).
+      { unfold active. rewrite <- Hcfg, <- Hapi, <- Hae.
+        inversion Hvals; reflexivity. }
+      destruct (step_round_cases st r) as [[Ha E]|[Ha E]];
+        destruct (step_round_cases st' r') as [[Ha' E']|[Ha' E']]; try congruence; rewrite E, E'.
+      + unfold do_round. cbn [fst snd].
+        assert (HA : AR (gen_accounts st (r_now r) (r_vals r)) (gen_accounts st' (r_now r') (r_vals r'))).
+        { unfold gen_accounts. rewrite <- Hnow. apply AR_fold; [exact Hvals|].
+          split; [exact HS|]. split; [reflexivity|]. split; [tauto|reflexivity]. }
+        destruct HA as [HS1 [Hq [Hr Hc]]].
+        split.
+        * split; [|cbn; apply Forall2_rel_val_pubs; exact Hvals].
+          destruct HS1 as [K1 [K2 [S1 L1]]]. repeat split; assumption.
+        * cbn. split; [reflexivity|]. split; [exact Hq|]. split.
+          -- intros a sr Ho. rewrite !mem_relay_sends, <- Hrel, (Hr a sr Ho). reflexivity.
+          -- intros sr Ho. rewrite <- Hnodes. destruct (r_nodes r) as [|n ns] eqn:En.
+             ++ cbn. split; intros [l [[] _]].
+             ++ rewrite !In_node_sends_iff by discriminate. apply filter_In_iff; assumption.
+      + split; [split; assumption|]. cbn. rewrite Hapi, Hcfg, Hnodes.
+        split; [reflexivity|]. split; [reflexivity|]. split; [tauto|tauto].
+    - subst f'. split; [split; assumption|]. cbn.
+      unfold step_forward.
+      assert (Hone : forall m sr, forward_one st f m sr = forward_one st' f m sr)
+        by (intros; unfold forward_one; rewrite Hctrl; reflexivity).
+      assert (Hfold : forall l m, fold_left (forward_one st f) l m = fold_left (forward_one st' f) l m).
+      { induction l as [|sr l IH]; intro m; cbn [fold_left]; [reflexivity|]. rewrite Hone. apply IH. }
+      rewrite Hfold. reflexivity.
+    - split; [split; assumption|]. cbn [snd]. unfold step_prepare.
+      destruct (p_acct_err p), (p_acct_err p2), (p_vals p), (p_vals p2); exact I.
+  Qed.
+
+  Lemma run_related : forall ops ops' st st',
+    SRC st st' -> Forall2 rel_op ops ops' -> Forall2 rel_out (snd (run st ops)) (snd (run st' ops')).
+  Proof.
+    induction ops as [|o ops IH]; intros ops' st st' HS HF; inversion HF; subst.
+    - constructor.
+    - rewrite !snd_run_cons. destruct (step_related st st' o y HS H1) as [HS1 Ho].
+      constructor; [exact Ho|]. apply IH; assumption.
+  Qed.
+
+  Lemma SRC_init : SRC init init.
+  Proof.
+    split; [|reflexivity]. split; [|split; [|split]].
+    - intros c sr H; discriminate.
+    - intros c sr H; discriminate.
+    - reflexivity.
+    - reflexivity.
+  Qed.
+End Isolation.
+
+(* ------------------------------------------------------------------------------------------- *)
+(* Secondary beacon nodes. *)
+
+Lemma round_nodes : forall ops i r err reqs relays nodes,
+  nth_error ops i = Some (ORound r) ->
+  nth_error (snd (run init ops)) i = Some (OutRound err reqs relays nodes) ->
+  (exists x, nodes = map (fun _ => x) (r_nodes r))
+  /\ forall l sr, In (Some l) nodes -> In sr l ->
+       exists v res rc, In v (r_vals r) /\ v_res v = Some res /\ hd_error (rs_relays res) = Some rc
+                        /\ sr_content sr = {| ct_fee := rc_fee rc; ct_gas := rc_gas rc; ct_pub := v_pub v |}.
+Proof.
+  intros ops i r err reqs relays nodes Hop Hout. split.
+  - destruct (run_nth _ _ _ _ Hout) as [o [H1 H2]]. rewrite Hop in H1. injection H1 as <-.
+    cbn [step] in H2.
+    destruct (step_round_cases (fst (run init (firstn i ops))) r) as [[_ E]|[_ E]]; rewrite E in H2; cbn in H2;
+      injection H2 as -> -> -> ->; eexists; unfold node_sends; reflexivity.
+  - intros l sr Hl Hsr.
+    destruct (history_round _ _ [] _ _ _ _ _ _ J_init Hop Hout) as [_ [Hn _]].
+    destruct (Hn l sr Hl Hsr) as [_ [v [rc [[Hv [res [Hres Hrc]]] Hc]]]].
+    exists v, res, rc. auto.
+Qed.
